@@ -125,6 +125,8 @@ def run(rep, tier):
     rep.floor('route facts: keyword_call_sites', stats.get('keyword_call_sites', 0), 8)
     rep.floor('route modules emitted', nmods, 26)
     rep.floor('call sites examined', stats['callsites'], 200)
+    # C.parse(args) instantiates the class template with the caller's values: captured outside the entry closure
+    shared.entry_closure_rule(rep)
     # a parameter is a reference with the weakest summary: it may fail after consuming (the argument
     # can be any parsing expression), so Ref's static flags must say so for local names too
     from .. import e1run
